@@ -22,6 +22,21 @@ def M(id_, file, old, new, props):
 
 
 MUTANTS = [
+    M('kwargs-default-mutated', NN,
+      "        default_neural_network_kwargs.update(neural_network_kwargs)\n"
+      "        neural_network_kwargs = default_neural_network_kwargs\n",
+      "        for key, value in default_neural_network_kwargs.items():\n"
+      "            neural_network_kwargs.setdefault(key, value)\n", 'C11'),
+    M('class-level-cache', PS, "class PhaseShift():\n", "class PhaseShift():\n    _memo = {}\n",
+      'C11'),
+    M('scalar-shortcut-in-prior', PR,
+      "        phys_points = np.zeros_like(points)\n",
+      "        if np.ndim(points) == 1:\n"
+      "            return self.unit_to_physical(np.atleast_2d(points))[0] + 0.0\n"
+      "        phys_points = np.zeros_like(points)\n", 'C11'),
+    M('fixed-zero-becomes-free', PR, "        if isinstance(dist, tuple):\n            dist = uniform(",
+      "        dist = dist or (0, 1)\n        if isinstance(dist, tuple):\n            dist = uniform(",
+      'C15'),
     M('bulk-deletion-ascending-pops', S, "                        for shell in np.flatnonzero(self.shell_n == 0)[::-1]:\n                            self.bounds.pop(shell)\n                            self.points.pop(shell)\n                            self.log_l.pop(shell)\n                            if self.blobs is not None:\n                                self.blobs.pop(shell)\n                            for key in ['shell_n', 'shell_n_sample',\n                                        'shell_n_eff', 'shell_log_l_min',\n                                        'shell_log_l', 'shell_log_v']:\n                                setattr(self, key, np.delete(\n                                    getattr(self, key), shell))\n", "                        empty = np.flatnonzero(self.shell_n == 0)\n                        for shell in empty:\n                            self.bounds.pop(shell)\n                            self.points.pop(shell)\n                            self.log_l.pop(shell)\n                            if self.blobs is not None:\n                                self.blobs.pop(shell)\n                        for key in ['shell_n', 'shell_n_sample',\n                                    'shell_n_eff', 'shell_log_l_min',\n                                    'shell_log_l', 'shell_log_v']:\n                            setattr(self, key, np.delete(\n                                getattr(self, key), empty))\n", 'C12 C02'),
     # ---------------- vectorised rewrites of the phase shift
     M('compute-vectorised-global-max', PS, '        bound.centers = np.zeros(len(periodic))\n\n        for i, dim in enumerate(periodic):\n            x = np.sort(points[:, dim])\n            dx = np.append(np.diff(x), x[0] - (x[-1] - 1))\n            bound.centers[i] = (\n                x[np.argmax(dx)] + np.amax(dx) / 2.0 + 0.5) % 1\n', '        x = np.sort(points[:, periodic], axis=0)\n        dx = np.append(np.diff(x, axis=0), x[:1] - (x[-1:] - 1), axis=0)\n        i_max = np.argmax(dx, axis=0)[np.newaxis]\n        bound.centers = (\n            np.take_along_axis(x, i_max, axis=0)[0] + np.amax(dx) / 2.0 +\n            0.5) % 1\n', 'C16'),
